@@ -662,6 +662,103 @@ fn scalars(ctx: &mut Ctx) {
         ctx.check_tol("jacobian", &shape, "j[(1,0)]", j[(1, 0)], dd(tx), tol);
         ctx.check_tol("jacobian", &shape, "j[(1,1)]", j[(1, 1)], dd(ty), tol);
     }
+    // squares formed by powi(2) / powf(2) of a composite value (the product of a number with itself),
+    // exact: derivatives of P^2 by the Leibniz rule over the list positions
+    {
+        let p = Poly::new(4, 41, 2);
+        let pt = point(4, 1);
+        let dsq = |vars: &[usize]| -> f64 {
+            let k = vars.len();
+            (0..(1usize << k))
+                .map(|mask| {
+                    let t: Vec<usize> = (0..k).filter(|i| mask & (1 << i) != 0).map(|i| vars[i]).collect();
+                    let u: Vec<usize> = (0..k).filter(|i| mask & (1 << i) == 0).map(|i| vars[i]).collect();
+                    p.d(&t, &pt) * p.d(&u, &pt)
+                })
+                .sum()
+        };
+        let xv = SVector::<f64, 2>::new(pt[0] as f64, pt[1] as f64);
+        let yv = SVector::<f64, 2>::new(pt[2] as f64, pt[3] as f64);
+        let (f, fx, fy, fxy) = partial_hessian(
+            |x: SVector<HyperDualSVec64<2, 2>, 2>, y: SVector<HyperDualSVec64<2, 2>, 2>| {
+                let all: Vec<HyperDualSVec64<2, 2>> = x.iter().chain(y.iter()).cloned().collect();
+                p.eval(&all).powi(2)
+            },
+            xv,
+            yv,
+        );
+        ctx.check("partial_hessian", "square by powi(2)", "value", f, dsq(&[]), json!({"point": pt}));
+        for i in 0..2 {
+            ctx.check("partial_hessian", "square by powi(2)", &format!("dx[{i}]"), fx[i], dsq(&[i]), json!({"point": pt}));
+            ctx.check("partial_hessian", "square by powi(2)", &format!("dy[{i}]"), fy[i], dsq(&[2 + i]), json!({"point": pt}));
+            for j in 0..2 {
+                ctx.check("partial_hessian", "square by powi(2)", &format!("dxdy[({i},{j})]"), fxy[(i, j)], dsq(&[i, 2 + j]), json!({"point": pt}));
+            }
+        }
+        let xd = DVector::from_vec(pt.iter().map(|v| *v as f64).collect());
+        let (_, g, h) = hessian(|v: DVector<Dual2DVec64>| p.eval(v.as_slice()).powf(2.0), xd.clone());
+        for i in 0..4 {
+            ctx.check("hessian", "square by powf(2)", &format!("g[{i}]"), g[i], dsq(&[i]), json!({"point": pt}));
+            for j in 0..4 {
+                ctx.check("hessian", "square by powf(2)", &format!("h[({i},{j})]"), h[(i, j)], dsq(&[i, j]), json!({"point": pt}));
+            }
+        }
+        let (_, d1, d2, d3) = third_derivative(|t: Dual3_64| { let q = p.eval(&[t, Dual3_64::from(pt[1] as f64), Dual3_64::from(pt[2] as f64), Dual3_64::from(pt[3] as f64)]); &q * &q }, pt[0] as f64);
+        ctx.check("third_derivative", "square by &q * &q", "d1", d1, dsq(&[0]), json!({"point": pt}));
+        ctx.check("third_derivative", "square by &q * &q", "d2", d2, dsq(&[0, 0]), json!({"point": pt}));
+        ctx.check("third_derivative", "square by &q * &q", "d3", d3, dsq(&[0, 0, 0]), json!({"point": pt}));
+    }
+    // results whose parts are present in unusual combinations (built by hand, e.g. captured
+    // parameters): the drivers must hand back every present part and zeros for absent ones
+    {
+        use nalgebra::{Const, RowSVector, SMatrix};
+        let hm = SMatrix::<f64, 2, 2>::new(1.5, -2.0, 0.25, 4.0);
+        let gv = RowSVector::<f64, 2>::new(3.0, -0.5);
+        for (pat, v1, v2) in [
+            ("v1 absent, v2 present", Derivative::none(), Derivative::some(hm)),
+            ("v1 present, v2 absent", Derivative::some(gv), Derivative::none()),
+            ("both present", Derivative::some(gv), Derivative::some(hm)),
+            ("both absent", Derivative::none(), Derivative::none()),
+        ] {
+            let want_g = if v1 == Derivative::none() { RowSVector::<f64, 2>::zeros() } else { gv };
+            let want_h = if v2 == Derivative::none() { SMatrix::<f64, 2, 2>::zeros() } else { hm };
+            let (v1c, v2c) = (v1.clone(), v2.clone());
+            let (f, g, h) = hessian(move |_: SVector<Dual2SVec64<2>, 2>| Dual2Vec::<f64, f64, Const<2>>::new(7.0, v1c.clone(), v2c.clone()), SVector::<f64, 2>::new(1.0, 2.0));
+            ctx.check("hessian", pat, "value", f, 7.0, json!({}));
+            for i in 0..2 {
+                ctx.check("hessian", pat, &format!("g[{i}]"), g[i], want_g[i], json!({}));
+                for j in 0..2 {
+                    ctx.check("hessian", pat, &format!("h[({i},{j})]"), h[(i, j)], want_h[(i, j)], json!({}));
+                }
+            }
+        }
+        let e1 = SVector::<f64, 2>::new(1.25, -3.0);
+        let e2 = RowSVector::<f64, 2>::new(0.5, 2.5);
+        for pat in 0..8usize {
+            let (p1, p2, p12) = (pat & 1 != 0, pat & 2 != 0, pat & 4 != 0);
+            let name = format!("eps1 {} eps2 {} eps1eps2 {}", p1, p2, p12);
+            let r = partial_hessian(
+                move |_: SVector<HyperDualSVec64<2, 2>, 2>, _: SVector<HyperDualSVec64<2, 2>, 2>| {
+                    HyperDualVec::<f64, f64, Const<2>, Const<2>>::new(
+                        -1.5,
+                        if p1 { Derivative::some(e1) } else { Derivative::none() },
+                        if p2 { Derivative::some(e2) } else { Derivative::none() },
+                        if p12 { Derivative::some(hm) } else { Derivative::none() },
+                    )
+                },
+                SVector::<f64, 2>::new(1.0, 2.0),
+                SVector::<f64, 2>::new(3.0, 4.0),
+            );
+            ctx.check("partial_hessian", &name, "value", r.0, -1.5, json!({}));
+            for i in 0..2 {
+                ctx.check("partial_hessian", &name, &format!("dx[{i}]"), r.1[i], if p1 { e1[i] } else { 0.0 }, json!({}));
+                ctx.check("partial_hessian", &name, &format!("dy[{i}]"), r.2[i], if p2 { e2[i] } else { 0.0 }, json!({}));
+                for j in 0..2 {
+                    ctx.check("partial_hessian", &name, &format!("dxdy[({i},{j})]"), r.3[(i, j)], if p12 { hm[(i, j)] } else { 0.0 }, json!({}));
+                }
+            }
+        }
+    }
     // nested use with elementary functions at points of unit slope (exp at 0, ln at 1, sqrt at 1/4):
     // the eps parts of the returned gradient carry the derivative with respect to the inner variable
     {
@@ -801,7 +898,7 @@ fn main() {
         mode: cli.mode,
         seed: cli.seed,
         start,
-        rule: "the twenty public drivers x input lengths n = 0..6 and output lengths m = 1..6 (static where the type system allows: gradient/hessian n = 1..6, jacobian all (m,n) in 1..6 x 1..6, partial_hessian (m,n) <= 4 and (6,1),(6,6),(1,6); dynamic for all lengths incl. 0) x two integer points x asymmetric integer polynomials containing every monomial of degree <= 3 with pairwise distinct coefficients (so every partial up to order 3 is non-zero and no two are equal) and, for every second function, that polynomial divided by a linear form equal to 2 at the point (quotient rules; all values stay small dyadic rationals); all n^3 index triples of third_partial_derivative_vec for n <= 5; try_ variants with unit-struct, String and integer errors; constant / partially constant functions (absent parts); nested use T = Dual64 (gradient, first/second/third_derivative, second_partial_derivative: the eps parts carry one more derivative order); non-polynomial integrands against reference Taylor coefficients; closures written with nalgebra's vector API (norm, norm_squared, normalize, dot); polar coordinates (sqrt, atan2 in both branches and all quadrants) through gradient, hessian, jacobian, partial_hessian and second_partial_derivative. Non-trivial = a derivative entry whose exact value is neither 0 nor 1.".into(),
+        rule: "the twenty public drivers x input lengths n = 0..6 and output lengths m = 1..6 (static where the type system allows: gradient/hessian n = 1..6, jacobian all (m,n) in 1..6 x 1..6, partial_hessian (m,n) <= 4 and (6,1),(6,6),(1,6); dynamic for all lengths incl. 0) x two integer points x asymmetric integer polynomials containing every monomial of degree <= 3 with pairwise distinct coefficients (so every partial up to order 3 is non-zero and no two are equal) and, for every second function, that polynomial divided by a linear form equal to 2 at the point (quotient rules; all values stay small dyadic rationals); all n^3 index triples of third_partial_derivative_vec for n <= 5; try_ variants with unit-struct, String and integer errors; constant / partially constant functions (absent parts); nested use T = Dual64 (gradient, first/second/third_derivative, second_partial_derivative: the eps parts carry one more derivative order); non-polynomial integrands against reference Taylor coefficients; squares through powi(2) / powf(2) / &q * &q; results with hand-built presence patterns (all 4 of Dual2Vec, all 8 of HyperDualVec); closures written with nalgebra's vector API (norm, norm_squared, normalize, dot); polar coordinates (sqrt, atan2 in both branches and all quadrants) through gradient, hessian, jacobian, partial_hessian and second_partial_derivative. Non-trivial = a derivative entry whose exact value is neither 0 nor 1.".into(),
         assumptions: vec!["expected values by symbolic differentiation of the coefficient tables in integer arithmetic (Leibniz rule for the quotient by the linear form); all values are small integers or dyadic rationals, so equality is exact".into()],
         extra: json!({"oracle": "exact integer partial derivatives; Err identity; Ok results bit-equal to the infallible variants"}),
         exhaustive: true,
